@@ -36,12 +36,27 @@ def run_property(prop, repo, tier="quick"):
     mod = importlib.import_module(f"sa.props.{prop.lower()}")
     ck = Check(prop, repo, tier)
     ck.module = mod
+    from . import rules as _rules
+    before = dict(_rules.ANALYSED)
+    _rules.ANALYSED.clear()
     try:
         mod.run(ck)
     except AnalysisError as e:
         ck.error(f"{prop}.anchor", str(e))
     except RecursionError as e:  # pragma: no cover
         ck.error(f"{prop}.engine", f"recursion limit: {e}")
+    analysed = dict(_rules.ANALYSED)
+    # generic well-formedness of the code the property's rules looked at (undefined locals, dropped returns); C10 sweeps the whole
+    # package for index domains and is given the functions of its own anchors only
+    try:
+        from . import generic
+        scope = analysed if prop != "C10" else {q: m for q, m in analysed.items() if m.endswith(("charging_network.py", "simulator.py", "interface.py", "algorithms/utils.py"))}
+        generic.run(ck, prop, scope)
+    except AnalysisError as e:
+        ck.error(f"{prop}.generic", str(e))
+    _rules.ANALYSED.clear()
+    _rules.ANALYSED.update(before)
+    _rules.ANALYSED.update(analysed)
     return ck
 
 
